@@ -62,7 +62,8 @@ func (x *Exec) libModel(fr *Frame, st *State, ins ssa.Instruction, callee *ssa.F
 	case "fmt.Errorf", "errors.New":
 		set(x.nonNilError(st))
 		return true
-	case "fmt.Printf", "fmt.Println", "fmt.Print", "log.Printf", "log.Println", "log.Print", "fmt.Fprintf", "fmt.Fprintln", "fmt.Fprint":
+	case "fmt.Printf", "fmt.Println", "fmt.Print", "log.Printf", "log.Println", "log.Print", "fmt.Fprintf", "fmt.Fprintln", "fmt.Fprint",
+		"io.Copy", "io.WriteString":
 		// output only; results (n, err) unconstrained
 		var rs []Term
 		sig := callee.Signature
